@@ -618,10 +618,12 @@ fn cmd_replay(args: &[String]) -> i32 {
     // a difference between two executions of one plan comes from state the simulator does not
     // control (RandomState inside the code under test): unlike every other replay it recurs
     // with high probability only, so it gets a few attempts
-    if out.own.is_empty() && case.plan().double_exec {
-        for _ in 0..7 {
+    if out.own.is_empty() {
+        let attempts = if case.plan().double_exec { 7 } else { 3 };
+        for k in 0..attempts {
             out = check_case(&prop, &case);
             if !out.own.is_empty() {
+                println!("note: reproduced on attempt {} only - the violation depends on state the simulator does not control (hash order at run time)", k + 2);
                 break;
             }
         }
